@@ -29,6 +29,16 @@ def gen_case(seed):
     for _ in range(rng.randint(1, 4)):
         # the index may refer to a variable created by an earlier conversion (resolved at run time modulo the count)
         convs.append([rng.randrange(nv + 2), rng.randrange(3), rng.random() < 0.6, rng.random() < 0.7])
+    if rng.random() < 0.25:
+        # one quantity converted again and again: the same variable three or four times, or the lineage
+        # x -> x_converted -> x_converted_converted ... (each conversion creates a variable with index nv, nv+1, ...)
+        v = rng.randrange(nv)
+        n = rng.randint(3, 4)
+        us = rng.sample(range(6), n)
+        if rng.random() < 0.5:
+            convs = [[v, us[i], rng.random() < 0.4, rng.random() < 0.7] for i in range(n)]
+        else:
+            convs = [[v if i == 0 else nv + i - 1, us[i], rng.random() < 0.5, rng.random() < 0.7] for i in range(n)]
     return {'seed': seed, 'spec': spec, 'convs': convs}
 
 
@@ -55,7 +65,7 @@ def check_conversion(pre, post, v, n, cf, is_input, move, seed, bad, j):
     o_pre, o_post, new = pre.vars[v], post.vars[v], post.vars[n]
     if is_input:
         want = None if o_pre[2] is None else float(o_pre[2]) * cf
-        if (want is None) != (new[2] is None) or (want is not None and not math.isclose(float(new[2]), want, rel_tol=1e-9, abs_tol=1e-12)):
+        if (want is None) != (new[2] is None) or (want is not None and not math.isclose(float(new[2]), want, rel_tol=1e-12, abs_tol=0.0)):
             bad.append(('INPUT conversion: initial value of the new variable is %r, expected %r' % (new[2], want), {'conv': j}))
         if o_post[2] is not None:
             bad.append(('INPUT conversion: the original variable keeps an initial value', {'conv': j}))
